@@ -477,10 +477,13 @@ def run_check(spec, tier, verif_seed):
         known_findings_matched=sorted(k for k in by_key if k in known),
         repo=repo_state(),
     )
+    soft_errors = []
     try:
         cov.update(spec.extra_evidence(tier, verif_seed) or {})
-    except Exception as e:  # stub validation is part of the harness
-        errors.append("extra_evidence: " + "".join(traceback.format_exception(type(e), e, e.__traceback__))[-2000:])
+    except Exception as e:  # stub validation runs the library too: on a broken tree it may fail because of the breakage
+        msg = "extra_evidence: " + "".join(traceback.format_exception(type(e), e, e.__traceback__))[-2000:]
+        (soft_errors if replays else errors).append(msg)
+        cov["stub_validation_error"] = msg[-600:]
     if errors:
         cov["harness_errors"] = errors[:5]
     evidence = dict(property_id=spec.prop, tier=tier, seed=int(verif_seed), level=spec.level, coverage=cov,
